@@ -172,17 +172,33 @@ fn contains(prefix: &str, addr: &IpAddr) -> bool {
     }
 }
 
-fn api_peer_msg(a: &ApiPeerCfg) -> api::Peer {
-    let afi_safis: Vec<api::AfiSafi> = fams_of(a.fam_mask)
+fn afi_safis_msg(fam_mask: u64, addpath: u8, gr: bool, plimit: u32) -> Vec<api::AfiSafi> {
+    fams_of(fam_mask)
         .iter()
         .map(|f| api::AfiSafi {
             config: Some(api::AfiSafiConfig { family: Some(crate::convert::family_to_api(*f)), enabled: true }),
-            add_paths: Some(api::AddPaths { config: Some(api::AddPathsConfig { receive: a.addpath & 1 != 0, send_max: if a.addpath & 2 != 0 { 2 } else { 0 } }), state: None }),
-            mp_graceful_restart: if a.gr { Some(api::MpGracefulRestart { config: Some(api::MpGracefulRestartConfig { enabled: true }), state: None }) } else { None },
-            prefix_limits: if a.plimit > 0 { Some(api::PrefixLimit { family: Some(crate::convert::family_to_api(*f)), max_prefixes: a.plimit, shutdown_threshold_pct: 0 }) } else { None },
+            add_paths: Some(api::AddPaths { config: Some(api::AddPathsConfig { receive: addpath & 1 != 0, send_max: if addpath & 2 != 0 { 2 } else { 0 } }), state: None }),
+            mp_graceful_restart: if gr { Some(api::MpGracefulRestart { config: Some(api::MpGracefulRestartConfig { enabled: true }), state: None }) } else { None },
+            prefix_limits: if plimit > 0 { Some(api::PrefixLimit { family: Some(crate::convert::family_to_api(*f)), max_prefixes: plimit, shutdown_threshold_pct: 0 }) } else { None },
             ..Default::default()
         })
-        .collect();
+        .collect()
+}
+
+/// A peer group as an operator configures it through AddPeerGroup.
+fn api_group_msg(name: &str, g: &GroupCfg) -> api::PeerGroup {
+    api::PeerGroup {
+        conf: Some(api::PeerGroupConf { peer_group_name: name.to_string(), peer_asn: g.asn, ..Default::default() }),
+        timers: Some(api::Timers { config: Some(api::TimersConfig { hold_time: g.hold, ..Default::default() }), state: None }),
+        afi_safis: afi_safis_msg(g.fam_mask, g.addpath, g.gr, 0),
+        route_server: Some(api::RouteServer { route_server_client: g.rs, secondary_route: false }),
+        graceful_restart: if g.gr { Some(api::GracefulRestart { enabled: true, restart_time: 77, notification_enabled: true, ..Default::default() }) } else { None },
+        ..Default::default()
+    }
+}
+
+fn api_peer_msg(a: &ApiPeerCfg) -> api::Peer {
+    let afi_safis = afi_safis_msg(a.fam_mask, a.addpath, a.gr, a.plimit);
     api::Peer {
         conf: Some(api::PeerConf { neighbor_address: a.addr.clone(), peer_asn: a.asn, peer_group: if a.group >= 0 { format!("g{}", a.group) } else { String::new() }, ..Default::default() }),
         timers: Some(api::Timers { config: Some(api::TimersConfig { hold_time: a.hold, ..Default::default() }), state: None }),
@@ -299,30 +315,11 @@ async fn run(case: Json, tol: Tolerate) -> Outcome {
         wcfg.peers.push(ps);
     }
     let w = World::new(&wcfg).await;
-    {
-        let mut g = w.global.write().await;
-        for (i, gc) in groups.iter().enumerate() {
-            g.peer_group.insert(
-                format!("g{}", i),
-                PeerGroup {
-                    as_number: gc.asn,
-                    dynamic_peers: vec![DynamicPeer { prefix: packet::IpNet::from_str(&gc.prefix).unwrap() }],
-                    route_server_client: gc.rs,
-                    holdtime: if gc.hold == 0 { None } else { Some(gc.hold) },
-                    local_asn: 0,
-                    passive: false,
-                    route_reflector: RouteReflectorConfig::default(),
-                    multihop_ttl: None,
-                    ttl_security: None,
-                    auth_password: None,
-                    connect_retry_time: None,
-                    families: fams_of(gc.fam_mask).into_iter().map(|f| (f, gc.addpath & 3)).collect(),
-                    send_max: if gc.addpath & 2 != 0 { fams_of(gc.fam_mask).into_iter().map(|f| (f, 2)).collect() } else { Default::default() },
-                    graceful_restart: if gc.gr { Some(GrPeerConfig { restart_time: 77, notification_enabled: true, families: fams_of(gc.fam_mask) }) } else { None },
-                    llgr: None,
-                },
-            );
-        }
+    // peer groups and their dynamic prefixes, as an operator configures them: AddPeerGroup + AddDynamicNeighbor
+    for (i, gc) in groups.iter().enumerate() {
+        let name = format!("g{}", i);
+        w.grpc.add_peer_group(tonic::Request::new(api::AddPeerGroupRequest { peer_group: Some(api_group_msg(&name, gc)) })).await.expect("add_peer_group");
+        w.grpc.add_dynamic_neighbor(tonic::Request::new(api::AddDynamicNeighborRequest { dynamic_neighbor: Some(api::DynamicNeighbor { prefix: gc.prefix.clone(), peer_group: name }) })).await.expect("add_dynamic_neighbor");
     }
     let pool: Vec<IpAddr> = addr_pool().iter().map(|a| a.parse().unwrap()).collect();
     let mut conns: BTreeMap<usize, Speaker> = BTreeMap::new();
